@@ -5,7 +5,7 @@ from fractions import Fraction as Fr
 from ..absstr import SegStr
 from ..nf import Rat, C
 from ..source import Unsupported, AnchorError
-from ..xlate import Interp, Frame, Obj, ListV, DictV, Raised, RankOrder
+from ..xlate import Interp, Frame, Obj, ListV, DictV, Raised, RankOrder, _RaisedExc
 from .common import same, show, coeff_vector
 from .rxnfix import species as opaque_species, set_public, get_public, make_reaction, state_sum
 
@@ -59,6 +59,8 @@ def sig_digits(spec):
         return (int(prec) if prec is not None else 6) + 1
     if typ in ('g', 'G', 'n'):
         return max(int(prec), 1) if prec is not None else 6
+    if typ == 'd':
+        return 17           # only an integer can be printed this way, and it is printed in full
     return 0
 
 
@@ -621,8 +623,8 @@ def reaction_emitters(run, repo):
             for k_ in PUBLIC:
                 try:
                     out[k_] = get_public(I, rxn, k_)
-                except Exception as e_:         # an attribute the class does not have
-                    out[k_] = type(e_).__name__
+                except _RaisedExc as e_:        # an attribute the class does not have (the same before and after)
+                    out[k_] = 'raises ' + e_.raised.exc
             return out
 
         def unchanged(before, after):
